@@ -34,12 +34,22 @@ Lenient(e) == \E i \in 1..Len(e.observed) :
                  /\ Restricts(e, e.observed[i].key)
                  /\ ~InJ(e.observed[i].value, VSOf(e, e.observed[i].key))
 
+(* The named deviation explains a rejection on wavelet_index_ho / dwt_depth_ho only for a stream that CODES    *)
+(* that value: the validator consults the level for them only inside "if asym_transform_index_flag" / "if      *)
+(* asym_transform_flag" (12.4.4.1), and it records the flag it read just before.  A rejection on a value the    *)
+(* stream does not code is not the encoder's documented assumption at work but a different failure.            *)
+Observed(e, key) == IF \E i \in 1..Len(e.observed) : e.observed[i].key = key
+                    THEN e.observed[CHOOSE i \in 1..Len(e.observed) : e.observed[i].key = key].value ELSE -1
+CodedInStream(e, key) == CASE key = "wavelet_index_ho" -> Observed(e, "asym_transform_index_flag") = 1
+                           [] key = "dwt_depth_ho"     -> Observed(e, "asym_transform_flag") = 1
+                           [] OTHER -> TRUE
+
 V(c, a) == [c |-> c, alarm |-> a]
 
 Clause(e) ==
   IF e.outcome = "produced" /\ ~e.accepted THEN
        IF /\ e.vexc \in {"ValueNotAllowedInLevel", "QuantisationMatrixValueNotAllowedInLevel"} /\ e.vkey \in UncheckedKeys
-          /\ Restricts(e, e.vkey) /\ ~InJ(e.vvalue, VSOf(e, e.vkey))
+          /\ Restricts(e, e.vkey) /\ ~InJ(e.vvalue, VSOf(e, e.vkey)) /\ CodedInStream(e, e.vkey)
        THEN V("DeviationUncheckedKey", TRUE)
        ELSE V("ProducedButRejected", TRUE)
   ELSE IF e.outcome = "error"                             THEN V("EncoderError", FALSE)
